@@ -73,6 +73,9 @@ def generate(rng, tier, index):
     if rng.random() < 0.12:
         options["namespaces_to_ignore"] = rng.choice([[gen.EX], [gen.EX_DEEP], [gen.EX, gen.OTHER], [gen.RDF_NS]])
     cache_primary = rng.random() < 0.6      # cache setting of the faulted run
+    # endpoint addresses as deployments have them: a named graph in the query string, upper-case host, a port
+    endpoint_url = rng.choice([EP_URL, EP_URL, EP_URL + "?default-graph-uri=http%3A%2F%2Fex.org%2Fg1", "http://Sim.Test:8890/sparql/",
+                               EP_URL + "?default-graph-uri=urn:g&timeout=0"])
     r = rng.random()
     config = "fault_free" if r < 0.3 else "transient" if r < 0.6 else "exhaust" if r < 0.72 else "outage" if r < 0.88 else "nonretryable"
     faults = []
@@ -89,7 +92,8 @@ def generate(rng, tier, index):
     elif config == "nonretryable":
         faults.append({"where": rng.choice(wheres), "offset": rng.randrange(64), "burst": 1, "kind": rng.choice(["urlerror", "timeout"])})
     return {"config": config, "graph": gen.L(triples), "target": target, "options": options,
-            "ns": gen.gen_namespaces(rng), "row_seed": rng.randrange(1 << 30), "cache_primary": cache_primary, "faults": faults}
+            "ns": gen.gen_namespaces(rng), "row_seed": rng.randrange(1 << 30), "cache_primary": cache_primary, "faults": faults,
+            "endpoint_url": endpoint_url}
 
 
 # ---------------------------------------------------------------------------
@@ -133,7 +137,9 @@ def _endpoint_run(sim, scen, triples, cache, plan=(), cap_steps=None, retry_same
         ep.plan.append(f)
     ep.max_attempts = cap_steps
     sim.set_endpoint(ep)
-    kw = _kwargs(scen, url_endpoint=EP_URL)
+    url = scen.get("endpoint_url", EP_URL)
+    ep.expected_url = url          # the dataset answers under exactly the address the caller gave
+    kw = _kwargs(scen, url_endpoint=url)
     if not cache:
         kw["disable_endpoint_cache"] = True
     if not retry_same_shaper:
